@@ -1,6 +1,6 @@
 (* C13 — lemmas about Model/Scientific.v *)
 From VRP Require Import Base.Tac Model.Scientific.
-From Coq Require Import String.
+From Coq Require Import String Permutation.
 
 (* ---------- rounding of distances ---------- *)
 Lemma isqrt_round_spec s : 0 <= s ->
@@ -408,7 +408,7 @@ Proof.
       unfold nat32, i32, i32_min, i32_max in *; repeat split; lia.
   - replace (map l_id (map fst (flat_map (fun r => [(pickup_line r, 0); (delivery_line r, n_id (rq_p r))]) (li_reqs I))))
       with (flat_map req_ids (li_reqs I)); [exact Hnd|].
-    induction (li_reqs I) as [|r rs IH]; [reflexivity|]. cbn [flat_map app map fst]. now rewrite <- IH.
+    clear. induction (li_reqs I) as [|r rs IH]; [reflexivity|]. cbn [flat_map app map fst]. now rewrite <- IH.
   - clear Hnd. induction Hreqs as [|r rs (_ & _ & Hq) _ IH]; [reflexivity|].
     cbn [flat_map app map fst filter]. unfold pickup_line at 1, delivery_line at 1. cbn [l_dem].
     replace (0 <? rq_q r) with true by (symmetry; apply Z.ltb_lt; lia).
@@ -439,3 +439,107 @@ Qed.
 Lemma parse_print_lilim_refuted :
   exists I, lil_wf I /\ read_lilim_defs (print_lilim I) <> Ok (expected_lilim I).
 Proof. exists lil_witness. split; [exact lil_witness_wf|]. vm_compute. discriminate. Qed.
+
+(* ---------- TSPLIB ---------- *)
+Lemma read_key_value_kv key v : v <> TColon -> read_key_value key (kv key v) = Ok [v].
+Proof.
+  intros Hv. unfold read_key_value, kv.
+  destruct v; try congruence; cbn [count_colons Nat.eqb split_colon]; now rewrite String.eqb_refl.
+Qed.
+Lemma expect_word_ok w : expect_word w [TWord w] = Ok tt.
+Proof. unfold expect_word. now rewrite String.eqb_refl. Qed.
+Lemma num_tok_not_colon k z : num_tok k z <> TColon.
+Proof. destruct k; discriminate. Qed.
+
+Lemma read_n_print {A B} (f : line -> res B) (pr : A -> line) (g : A -> B) xs rest :
+  (forall x, In x xs -> f (pr x) = Ok (g x)) ->
+  read_n (List.length xs) f (map pr xs ++ rest) = Ok (map g xs, rest).
+Proof.
+  induction xs as [|x xs IH]; intros H; [reflexivity|].
+  cbn [List.length map app read_n next_line]. rewrite (H x (or_introl eq_refl)). cbn [bind].
+  rewrite IH by (intros y Hy; apply H; now right). reflexivity.
+Qed.
+
+Definition tsp_cm (nodes : list tnode) : list (Z * coord) := map (fun n => (t_id n, txy n)) nodes.
+Definition tsp_dm (nodes : list tnode) : list (Z * Z) := map (fun n => (t_id n, t_dem n)) nodes.
+
+Lemma tsp_jobs_spec nodes depot : NoDup (map t_id nodes) ->
+  forall pn, incl pn nodes -> forall ci rest,
+  let custs := filter (fun n => negb (t_id n =? depot)) pn in
+  tsp_jobs ci depot (map t_id pn) (tsp_cm nodes) (tsp_dm nodes) =
+  Ok (map (fun n => JSingle (mkSingle (Some (t_id n - 1)) (Some (0, 0, t_dem n, 0))
+                               (loc_of (fold_left add_coord (map txy custs ++ rest) ci) (txy n)) 0 0 None)) custs,
+      fold_left add_coord (map txy custs) ci).
+Proof.
+  intros Hnd. induction pn as [|n pn IH]; intros Hincl ci rest; [reflexivity|].
+  cbn zeta. cbn [map tsp_jobs filter].
+  assert (Hn : In n nodes) by (apply Hincl; now left).
+  assert (Hpn : incl pn nodes) by (intros x Hx; apply Hincl; now right).
+  destruct (t_id n =? depot) eqn:Ed; cbn [negb].
+  - exact (IH Hpn ci rest).
+  - assert (Ec : alookup (t_id n) (tsp_cm nodes) = Some (txy n)).
+    { apply alookup_nodup; [unfold tsp_cm; rewrite map_map; exact Hnd|].
+      apply (in_map (fun n => (t_id n, txy n))). exact Hn. }
+    assert (Edm : alookup (t_id n) (tsp_dm nodes) = Some (t_dem n)).
+    { apply alookup_nodup; [unfold tsp_dm; rewrite map_map; exact Hnd|].
+      apply (in_map (fun n => (t_id n, t_dem n))). exact Hn. }
+    rewrite Ec, Edm.
+    destruct (collect ci (txy n)) as [ci' loc] eqn:E.
+    destruct (collect_eq _ _ (map txy (filter (fun n => negb (t_id n =? depot)) pn) ++ rest) _ _ E) as [-> ->].
+    specialize (IH Hpn (add_coord ci (txy n)) rest). cbn zeta in IH. rewrite IH. cbn [bind map app fold_left].
+    reflexivity.
+Qed.
+
+Lemma find_nodup {A} (f : A -> Z) (l : list A) x :
+  NoDup (map f l) -> In x l -> find (fun y => f y =? f x) l = Some x.
+Proof.
+  induction l as [|h t IH]; [intros _ []|]. cbn [map find]. intros Hnd Hin.
+  inversion Hnd as [|? ? Hh Ht]; subst. destruct Hin as [->|Hin].
+  - now rewrite Z.eqb_refl.
+  - destruct (Z.eqb_spec (f h) (f x)) as [E|_]; [|now apply IH].
+    exfalso. apply Hh. rewrite E. now apply in_map.
+Qed.
+
+Lemma parse_print_tsplib I h k pn :
+  tsp_wf I -> List.length h = 2%nat -> Permutation pn (ti_nodes I) ->
+  read_tsplib_defs (map t_id pn) (print_tsplib h k I) = Ok (expected_tsplib pn I).
+Proof.
+  intros (Hwf & Hnd & Hdep & Hcap & Hlen) Lh Hperm.
+  unfold read_tsplib_defs, print_tsplib. rewrite (skipn_exact h _ 2 Lh).
+  cbn [next_line]. rewrite read_key_value_kv by discriminate. cbn [bind]. rewrite expect_word_ok. cbn [bind].
+  rewrite read_key_value_kv by discriminate. cbn [bind parse_int_line parse_int].
+  rewrite clamp_id by (unfold i32, i32_min, i32_max in *; lia).
+  rewrite read_key_value_kv by discriminate. cbn [bind]. rewrite expect_word_ok. cbn [bind].
+  rewrite read_key_value_kv by apply num_tok_not_colon. cbn [bind parse_int_line].
+  rewrite parse_int_num_tok by (apply nat32_i32, Hcap). cbn [bind].
+  rewrite expect_word_ok. cbn [bind].
+  replace (Z.of_nat (List.length (ti_nodes I)) <? 0) with false by (symmetry; apply Z.ltb_ge; lia).
+  rewrite Nat2Z.id.
+  rewrite (read_n_print coord_line _ (fun n => (t_id n, txy n))).
+  2:{ intros n Hn. rewrite Forall_forall in Hwf. destruct (Hwf n Hn) as (W1 & W2 & W3 & W4).
+      unfold coord_line. rewrite !parse_int_num_tok by assumption. cbn [bind parse_int].
+      now rewrite clamp_id. }
+  cbn [bind next_line]. rewrite expect_word_ok. cbn [bind].
+  rewrite (read_n_print demand_line _ (fun n => (t_id n, t_dem n))).
+  2:{ intros n Hn. rewrite Forall_forall in Hwf. destruct (Hwf n Hn) as (W1 & W2 & W3 & W4).
+      unfold demand_line. cbn [parse_int bind]. now rewrite !clamp_id. }
+  cbn [bind next_line]. rewrite expect_word_ok. cbn [bind parse_int_line parse_int].
+  apply in_map_iff in Hdep. destruct Hdep as (dn & Edn & Hdn).
+  assert (Wd : tnode_wf dn) by (rewrite Forall_forall in Hwf; auto). destruct Wd as (Wd1 & _).
+  rewrite clamp_id by (rewrite <- Edn; exact Wd1). cbn [bind]. rewrite expect_word_ok. cbn [bind].
+  fold (tsp_cm (ti_nodes I)). fold (tsp_dm (ti_nodes I)).
+  rewrite (tsp_jobs_spec _ _ Hnd pn) with (rest := [depot_xy I])
+    by (intros x Hx; eapply Permutation_in; eassumption).
+  cbn [bind].
+  assert (Edxy : depot_xy I = txy dn).
+  { unfold depot_xy. rewrite <- Edn. now rewrite (find_nodup t_id _ dn Hnd Hdn). }
+  assert (Ec : alookup (ti_depot I) (tsp_cm (ti_nodes I)) = Some (depot_xy I)).
+  { rewrite Edxy, <- Edn. apply alookup_nodup; [unfold tsp_cm; rewrite map_map; exact Hnd|].
+    apply (in_map (fun n => (t_id n, txy n))). exact Hdn. }
+  rewrite Ec.
+  set (custs := filter (fun n => negb (t_id n =? ti_depot I)) pn).
+  destruct (collect (fold_left add_coord (map txy custs) []) (depot_xy I)) as [cf dloc] eqn:E.
+  destruct (collect_eq _ _ [] _ _ E) as [-> ->]. cbn [fold_left].
+  unfold expected_tsplib. fold custs. unfold all_coords. rewrite fold_left_app. cbn [fold_left].
+  rewrite as_usize_id by exact Hcap. rewrite as_i32_id by (apply nat32_i32, Hcap). reflexivity.
+Qed.
